@@ -51,3 +51,25 @@ STATUS_CLASS = {
     17: "NotWritable",
     18: "InconsistentName",
 }
+
+
+def pythonise(value):
+    """reference (kind, value) -> the built-in Python object the pythonic API
+    documents: str OIDs, int, bytes, timedelta (1/100 s), IPv4Address, None"""
+    import datetime
+    import ipaddress
+
+    kind, v = value
+    if kind in ("int", "c32", "g32", "c64"):
+        return int(v)
+    if kind in ("str", "opaque"):
+        return bytes(v)
+    if kind in ("null", "nso", "nsi", "eomv"):
+        return None
+    if kind == "oid":
+        return ".".join(str(a) for a in v)
+    if kind == "ip":
+        return ipaddress.IPv4Address(bytes(v))
+    if kind == "tt":
+        return datetime.timedelta(milliseconds=10 * v)
+    raise ValueError(kind)
